@@ -49,7 +49,11 @@ type regionSpec struct {
 	Pending []uint64   `json:"pending,omitempty"`
 	Down    []uint64   `json:"down,omitempty"`
 	Size    int64      `json:"size"`
-	Via     string     `json:"via,omitempty"` // "" = NewRegionInfo, "hb" = RegionFromHeartbeat
+	Via     string     `json:"via,omitempty"` // "" = NewRegionInfo, "hb" = RegionFromHeartbeat, "clone" = cached object .Clone(options)
+	// CloneFrom: id of the cached region whose object is cloned (Via "clone")
+	CloneFrom uint64 `json:"clone_from,omitempty"`
+	Ver       uint64 `json:"ver,omitempty"`
+	ConfVer   uint64 `json:"conf_ver,omitempty"`
 }
 
 func (s *regionSpec) clone() *regionSpec {
@@ -89,35 +93,52 @@ func (s *regionSpec) String() string {
 	return fmt.Sprintf("r%d[%x,%x) size=%d {%s}", s.ID, string(s.Start), string(s.End), s.Size, strings.Join(ps, " "))
 }
 
-// build creates the RegionInfo the way the code base does (heartbeat or NewRegionInfo + options).
-func (s *regionSpec) build() *core.RegionInfo {
-	meta := &metapb.Region{Id: s.ID, StartKey: []byte(s.Start), EndKey: []byte(s.End),
-		RegionEpoch: &metapb.RegionEpoch{ConfVer: 1, Version: 1}}
-	mk := func(p peerSpec) *metapb.Peer {
-		q := &metapb.Peer{Id: p.ID, StoreId: p.Store}
-		if p.Learner {
-			q.Role = metapb.PeerRole_Learner
-		}
-		return q
+func mkPeer(p peerSpec) *metapb.Peer {
+	q := &metapb.Peer{Id: p.ID, StoreId: p.Store}
+	if p.Learner {
+		q.Role = metapb.PeerRole_Learner
 	}
-	for _, p := range s.Peers {
-		meta.Peers = append(meta.Peers, mk(p))
+	return q
+}
+
+func (s *regionSpec) epoch() *metapb.RegionEpoch {
+	e := &metapb.RegionEpoch{ConfVer: s.ConfVer, Version: s.Ver}
+	if e.ConfVer == 0 {
+		e.ConfVer = 1
 	}
-	var leader *metapb.Peer
+	if e.Version == 0 {
+		e.Version = 1
+	}
+	return e
+}
+
+func (s *regionSpec) parts() (leader *metapb.Peer, pending []*metapb.Peer, down []*pdpb.PeerStats) {
 	if p := s.peer(s.Leader); p != nil {
-		leader = mk(*p)
+		leader = mkPeer(*p)
 	}
-	var pending []*metapb.Peer
 	for _, id := range s.Pending {
 		if p := s.peer(id); p != nil {
-			pending = append(pending, mk(*p))
+			pending = append(pending, mkPeer(*p))
 		}
 	}
-	var down []*pdpb.PeerStats
 	for _, id := range s.Down {
 		if p := s.peer(id); p != nil {
-			down = append(down, &pdpb.PeerStats{Peer: mk(*p), DownSeconds: 300})
+			down = append(down, &pdpb.PeerStats{Peer: mkPeer(*p), DownSeconds: 300})
 		}
+	}
+	return
+}
+
+// build creates the RegionInfo the way the code base does: from a heartbeat, NewRegionInfo with
+// options, or (cur != nil) get - edit - set: Clone of an object obtained from the cache plus options.
+func (s *regionSpec) build(cur *core.RegionInfo) *core.RegionInfo {
+	leader, pending, down := s.parts()
+	if s.Via == "clone" && cur != nil {
+		return cur.Clone(s.cloneOptions(cur, leader, pending, down)...)
+	}
+	meta := &metapb.Region{Id: s.ID, StartKey: []byte(s.Start), EndKey: []byte(s.End), RegionEpoch: s.epoch()}
+	for _, p := range s.Peers {
+		meta.Peers = append(meta.Peers, mkPeer(p))
 	}
 	if s.Via == "hb" {
 		return core.RegionFromHeartbeat(&pdpb.RegionHeartbeatRequest{Region: meta, Leader: leader,
@@ -125,6 +146,79 @@ func (s *regionSpec) build() *core.RegionInfo {
 	}
 	return core.NewRegionInfo(meta, leader, core.SetApproximateSize(s.Size),
 		core.WithPendingPeers(pending), core.WithDownPeers(down))
+}
+
+// cloneOptions expresses the difference between the cached object and the spec with the options
+// the code base uses (targeted ones where the difference is a single conf change).
+func (s *regionSpec) cloneOptions(cur *core.RegionInfo, leader *metapb.Peer, pending []*metapb.Peer, down []*pdpb.PeerStats) []core.RegionCreateOption {
+	var opts []core.RegionCreateOption
+	if cur.GetID() != s.ID {
+		opts = append(opts, core.WithNewRegionID(s.ID))
+	}
+	if string(cur.GetStartKey()) != string(s.Start) {
+		opts = append(opts, core.WithStartKey([]byte(s.Start)))
+	}
+	if string(cur.GetEndKey()) != string(s.End) {
+		opts = append(opts, core.WithEndKey([]byte(s.End)))
+	}
+	// peers
+	old := map[uint64]*metapb.Peer{}
+	for _, p := range cur.GetPeers() {
+		old[p.GetId()] = p
+	}
+	var added []peerSpec
+	var promoted, moved []peerSpec
+	common := 0
+	otherDiff := false
+	for _, p := range s.Peers {
+		o, ok := old[p.ID]
+		if !ok {
+			added = append(added, p)
+			continue
+		}
+		common++
+		wasLearner := o.GetRole() == metapb.PeerRole_Learner
+		switch {
+		case o.GetStoreId() == p.Store && wasLearner == p.Learner:
+		case o.GetStoreId() == p.Store && wasLearner && !p.Learner:
+			promoted = append(promoted, p)
+		case o.GetStoreId() != p.Store && wasLearner == p.Learner:
+			moved = append(moved, p)
+		default:
+			otherDiff = true
+		}
+	}
+	removed := len(old) - common
+	switch {
+	case cur.GetID() != s.ID:
+		opts = append(opts, core.SetPeers(s.metaPeers()))
+	case otherDiff || len(added)+removed+len(promoted)+len(moved) > 1:
+		opts = append(opts, core.SetPeers(s.metaPeers()))
+	case len(added) == 1:
+		opts = append(opts, core.WithAddPeer(mkPeer(added[0])))
+	case removed == 1:
+		for id, o := range old {
+			if s.peer(id) == nil {
+				opts = append(opts, core.WithRemoveStorePeer(o.GetStoreId()))
+			}
+		}
+	case len(promoted) == 1:
+		opts = append(opts, core.WithPromoteLearner(promoted[0].ID))
+	case len(moved) == 1:
+		opts = append(opts, core.WithReplacePeerStore(old[moved[0].ID].GetStoreId(), moved[0].Store))
+	}
+	e := s.epoch()
+	opts = append(opts, core.WithLeader(leader), core.WithPendingPeers(pending), core.WithDownPeers(down),
+		core.SetApproximateSize(s.Size), core.SetRegionVersion(e.Version), core.SetRegionConfVer(e.ConfVer))
+	return opts
+}
+
+func (s *regionSpec) metaPeers() []*metapb.Peer {
+	var out []*metapb.Peer
+	for _, p := range s.Peers {
+		out = append(out, mkPeer(p))
+	}
+	return out
 }
 
 type entry struct {
